@@ -104,9 +104,14 @@ def encrypt(protected, plaintext, recipients, unprotected=None, aad=None, form="
         alg = merged["alg"]
         recs.append({"r": r, "rh": rh, "alg": alg, "mode": _mode(alg), "ek": b""})
 
+    if param_pos == "unprotected":
+        unprotected = dict(unprotected or {})
+
     def put(rec, k, v):
         if param_pos == "protected":
             protected[k] = v
+        elif param_pos == "unprotected":
+            unprotected[k] = v
         else:
             rec["rh"][k] = v
 
